@@ -342,11 +342,13 @@ XDeviations == {
 
 MalShapes == {"negu", "frac", "text"}
 Malformed(v) == v # Absent /\ v.s \in MalShapes
+UIntKinds == {"uint", "uint32", "uint64"}
+IntKinds == {"int", "int32", "int64"} \cup UIntKinds
 MalVals(a) ==
   IF a.nest # "direct" \/ a.rule # "none" THEN {}
-  ELSE (IF a.kind = "uint" THEN {V("uint", 3, "negu", 1)} ELSE {})
-       \cup (IF a.kind \in {"int", "uint"} THEN {V(a.kind, 3, "frac", 1)} ELSE {})
-       \cup (IF a.kind \in {"int", "uint", "float", "bool"} THEN {V(a.kind, 3, "text", 1)} ELSE {})
+  ELSE (IF a.kind \in UIntKinds THEN {V(a.kind, 3, "negu", 1)} ELSE {})
+       \cup (IF a.kind \in IntKinds THEN {V(a.kind, 3, "frac", 1)} ELSE {})
+       \cup (IF a.kind \in IntKinds \cup {"float", "float32", "bool"} THEN {V(a.kind, 3, "text", 1)} ELSE {})
 
 \* what the schema validator sees for attribute a: the value as it travels
 Seen(a, w) == Carried(a, w.v)
@@ -361,7 +363,7 @@ KeyNests == {"mapkey", "nested_mapkey", "mapkey_alias"}
 RuleDocumented(a) == /\ ~(a.nest \in KeyNests /\ Dev("schema.map_key_rule_undocumented"))
                      /\ ~(a.nest = "mapval" /\ a.rule \in {"cminlen", "cmaxlen"} /\ Dev("schema.map_length_undocumented"))
 \* deviations under which the verdict of the schema on a present value is not determined by the design's rule
-Blurred(a, c) == \/ a.kind = "bytes" /\ a.rule \in {"minlen", "maxlen"} /\ Dev("schema.bytes_length_on_encoded_text")
+Blurred(a, c) == \/ a.kind = "bytes" /\ a.rule # "none" /\ Dev("schema.bytes_length_on_encoded_text")
                  \/ a.loc = "body" /\ Dev("schema.dedup_ignores_validations")
 SchemaValueOK(a, c) ==
   IF EmptyParam(a, c) /\ Dev("schema.empty_value_allowed") THEN {TRUE}
